@@ -130,11 +130,11 @@ def classify_sanitizer(stderr):
             if "/gmlc/" in path:
                 top = os.path.basename(path) + ":" + re.sub(r"[<(].*", "", fn).split("::")[-1]
                 break
-        return "asan:%s:%s" % (kind, top), stderr[-6000:]
+        return "asan:%s:%s" % (kind, top), stderr[m.start():m.start() + 7000]
     m = re.search(r"(\S+?):(\d+):\d+: runtime error: (.*)", stderr)
     if m:
         what = re.sub(r"0x[0-9a-f]+", "ADDR", m.group(3))[:80].strip().replace(" ", "_")
-        return "ubsan:%s:%s" % (os.path.basename(m.group(1)), what), stderr[-6000:]
+        return "ubsan:%s:%s" % (os.path.basename(m.group(1)), what), stderr[m.start():m.start() + 7000]
     return None
 
 
